@@ -410,6 +410,27 @@ def run_c08(rep, tier, seed):
             for segs in segmentations(rng, d2, k=2):
                 clines.append("conn " + "|".join(s.hex() for s in segs))
                 cmeta.append((fs, "reset"))
+    # large frames inside streams: the read buffer grows past its initial 8 KiB (and any retention limit a
+    # connection might have) while later frames are already buffered behind the large one
+    for size in ([8192, 70000] if tier == "quick" else [8191, 8192, 16384, 65535, 65536, 70000, 140000]):
+        for shape in range(3):
+            small = [gen_wf(rng, big=False) for _ in range(3)]
+            bigf = ("B", bytes([rng.getrandbits(8)]) * size) if shape != 2 else ("A", [("B", b"SET"), ("B", b"k"), ("B", bytes([rng.getrandbits(8)]) * size)])
+            fs = [bigf] + small if shape == 0 else [small[0], bigf] + small[1:]
+            data = b"".join(enc_py(f) for f in fs)
+            pre = len(enc_py(fs[0])) if shape == 0 else len(enc_py(fs[0])) + len(enc_py(fs[1]))
+            segsets = [[data], [data[i:i + 1000] for i in range(0, len(data), 1000)], [data[i:i + 8192] for i in range(0, len(data), 8192)],
+                       [data[:pre + 3], data[pre + 3:]], [data[:pre], data[pre:]], [data[:pre - 1], data[pre - 1:]]]
+            for segs in segsets:
+                segs = [x for x in segs if x]
+                clines.append("conn " + "|".join(x.hex() for x in segs))
+                cmeta.append((fs, None))
+            nxt = enc_py(gen_wf(rng, big=False))
+            if len(nxt) > 1:
+                d2 = data + nxt[:max(1, len(nxt) // 2)]
+                for segs in ([d2], [d2[i:i + 1000] for i in range(0, len(d2), 1000)]):
+                    clines.append("conn " + "|".join(x.hex() for x in segs))
+                    cmeta.append((fs, "reset"))
     impl3, model3, died3 = both(clines)
     rep.cov["evaluations"] += len(clines)
     rep.count("stream_cases", len(clines))
